@@ -21,6 +21,7 @@ type SpecStep struct {
 	// asynchronous grain: the message the action is about, and the requests the step put on the wire
 	M     *SpecMsg  `json:"m,omitempty"`
 	Spawn []SpecMsg `json:"spawn,omitempty"`
+	Lost  []SpecMsg `json:"lost,omitempty"` // timed model: messages that expire with this Tick
 }
 
 // SpecMsg identifies a request of the specification's `net': kind, endpoints of the request,
@@ -74,6 +75,9 @@ func (c *Cluster) project(n *Node) SpecProj {
 // lapse advances virtual time until node id neither holds a valid lease nor has heard
 // from a leader (or voted) within an election timeout: the spec's sticky = FALSE.
 func (c *Cluster) lapse(ids ...string) {
+	if c.timed {
+		return // RaftTimed.tla: the clock is the specification's, nothing is free
+	}
 	for i := 0; i < 100; i++ {
 		ok := true
 		c.mu.Lock()
@@ -111,6 +115,22 @@ func (r *Runner) specStep(k int, st SpecStep) {
 		c.net.maxPerLink = 0
 	}
 	switch st.A {
+	case "Tick":
+		// messages that have been in flight for D are lost, then one unit of time passes
+		c.net.maxPerLink = 0
+		for i := range st.Lost {
+			if q := r.rpcMap[st.Lost[i].key()]; q != nil && q.Phase != 3 {
+				op := "dropreq"
+				if q.Phase == 2 {
+					op = "dropresp"
+				}
+				r.doRPC(Stim{Op: op, Kind: q.Kind, From: q.From, To: q.To}, q)
+			}
+		}
+		ok = r.Do(Stim{Op: "adv", D: r.sc.TickMS})
+	case "LeaseRead":
+		c.net.maxPerLink = 0
+		ok = r.Do(Stim{Op: "submit", N: n, Val: fmt.Sprintf("ld%d", k), K: 2, TO: 60000})
 	case "TimerFireA":
 		c.net.maxPerLink = 0
 		ok = r.Do(Stim{Op: "fire", N: n})
